@@ -56,7 +56,7 @@ P('C01', claimed=True, needs_driver=True, level='other',
   unreached=['acceptance by a real scsynth'])
 
 P('C02', claimed=True, needs_driver=True, level='other',
-  contracts=['synth_fmtrw', 'synth_writer', 'synth_synthdef_graph', 'synth_toposort', 'synth_outputs', 'synth_defwriter', 'synth_finish'], drivers=['vf.drivers.C02'],
+  contracts=['synth_fmtrw', 'synth_writer', 'synth_synthdef_graph', 'synth_toposort', 'synth_outputs', 'synth_defwriter', 'synth_finish', 'synth_newunit'], drivers=['vf.drivers.C02'],
   level_text=('Discharged (pyvc, all inputs): byte lengths and value ranges of the primitive writers; the field '
               'sequence a unit writes (SynthObject._write_def: name, rate number, input count, output count, '
               'special index as i16, then exactly one input spec per input in order, then the output specs - '
@@ -91,7 +91,7 @@ P('C02', claimed=True, needs_driver=True, level='other',
               'independent SCgf-2 reader.'),
   unreached=['acceptance by a real scsynth'])
 
-P('C03', claimed=True, level='other', contracts=['base_utils', 'synth_ugen', 'synth_multinew', 'synth_outputs', 'synth_channellist'], drivers=['vf.drivers.C03'],
+P('C03', claimed=True, level='other', contracts=['base_utils', 'synth_ugen', 'synth_multinew', 'synth_outputs', 'synth_channellist', 'synth_newunit'], drivers=['vf.drivers.C03'],
   level_text=('The generic expansion itself, SynthObject._multi_new, is under contract for calls with 1-4 arguments of '
               'arbitrary values and list lengths: without a (non-empty) list exactly one unit via _new1; otherwise '
               'exactly one recursive call per channel i of the longest list with every list argument replaced by '
@@ -347,7 +347,7 @@ P('C14', claimed=True, level='other', contracts=['seq_event_keys', 'seq_ppar', '
               'Modifier-only events are left unspecified.'))
 
 P('C15', claimed=True, level='other',
-  contracts=['base_builtins', 'base_builtins_wrappers', 'synth_specialindex', 'seq_oppatterns', 'base_opstreams'], drivers=['vf.drivers.C15'],
+  contracts=['base_builtins', 'base_builtins_wrappers', 'synth_specialindex', 'seq_oppatterns', 'base_opstreams', 'synth_newunit'], drivers=['vf.drivers.C15'],
   level_text=('Numeric range/inverse laws of mod, div, wrap, fold, clip, round, roundup, trunc and the '
               'midi/cps, ratio/midi, oct/cps, amp/db pairs are postconditions on the real kernels and are '
               'discharged for all int/float arguments (one case per type assignment; floats as reals); the '
@@ -392,7 +392,7 @@ P('C16', claimed=True, level='other',
               '(no caller in the library) is under contract, but the GLOBAL invariant over histories (no two live ranges overlap) is bounded only; in the contracts of its parts the table is an uninterpreted array and the '
               'free lists are ghost events. Bit operations modelled arithmetically with a disjointness side condition.'))
 
-P('C17', claimed=True, level='other', contracts=['base_netaddr_bind', 'synth_node_cmds', 'synth_bus_cmds', 'synth_buffer_cmds'], drivers=['vf.drivers.C17'],
+P('C17', claimed=True, level='other', contracts=['base_netaddr_bind', 'synth_node_cmds', 'synth_bus_cmds', 'synth_buffer_cmds', 'synth_node_ctors'], drivers=['vf.drivers.C17'],
   level_text=('Discharged (pyvc, all ids/flags): BundleNetAddr.__exit__ sends the collected bundle iff the block did '
               'not raise (any exception class); the straight-line node commands send exactly the reference '
               'command once, through the object\'s own server address, with its own node id (and the target\'s), '
